@@ -492,6 +492,81 @@ func c6ShortCircuit(p *Prog, r *Report) {
 				r.Check(good, rule, q+":"+name, p.pos(t.iff.Pos()), "a constant condition selects the "+fld+" branch", "when the condition "+name+", partialIfThenElse must return the partial evaluation of "+fld)
 			}
 		}
+		// (b') every successful return is one of: the deciding literal, the tail of the dedicated continuation, or the residual
+		// node of the same kind rebuilt around the partially evaluated first operand
+		kindOf := map[string]string{"partialAnd": "NodeTypeAnd", "partialOr": "NodeTypeOr", "partialIfThenElse": "NodeTypeIfThenElse"}[s.fn]
+		for _, b := range fn.Blocks {
+			ret, ok := lastInstr(b).(*ssa.Return)
+			if !ok || len(ret.Results) != 2 || !isNilConst(retLast(ret)) {
+				continue
+			}
+			v := stripConv(retVal(ret, 0))
+			shape := "other"
+			if ld, ok := v.(*ssa.UnOp); ok && ld.Op == token.MUL {
+				if a, ok := ld.X.(*ssa.Alloc); ok {
+					if n := namedOf(a.Type()); n != nil {
+						shape = n.Obj().Name()
+						// the residual must contain the first operand's partial result
+						if shape == kindOf {
+							hasFirst := false
+							var walk func(al *ssa.Alloc, depth int)
+							walk = func(al *ssa.Alloc, depth int) {
+								if depth > 3 {
+									return
+								}
+								for _, ref := range *al.Referrers() {
+									fa, ok := ref.(*ssa.FieldAddr)
+									if !ok {
+										continue
+									}
+									for _, rr := range *fa.Referrers() {
+										switch y := rr.(type) {
+										case *ssa.Store:
+											if stripConv(y.Val) == ssa.Value(firstNode) {
+												hasFirst = true
+											}
+											if ld2, ok := stripConv(y.Val).(*ssa.UnOp); ok && ld2.Op == token.MUL {
+												if a2, ok := ld2.X.(*ssa.Alloc); ok {
+													walk(a2, depth+1)
+												}
+											}
+										case *ssa.FieldAddr:
+											for _, r3 := range *y.Referrers() {
+												if st, ok := r3.(*ssa.Store); ok && stripConv(st.Val) == ssa.Value(firstNode) {
+													hasFirst = true
+												}
+											}
+										}
+									}
+								}
+							}
+							walk(a, 0)
+							if !hasFirst {
+								shape = kindOf + "(without the first operand)"
+							}
+						}
+					}
+				}
+			}
+			if ex, ok := v.(*ssa.Extract); ok {
+				if c, ok := ex.Tuple.(*ssa.Call); ok && c.Call.StaticCallee() != nil {
+					shape = "tail:" + c.Call.StaticCallee().Name()
+				}
+			}
+			allowed := shape == kindOf || shape == "NodeValue" || shape == "tail:tryPartialBinary" || shape == "tail:partial"
+			r.Check(allowed, rule, q+":result-shape:"+shape, p.pos(ret.Pos()), "successful result is "+shape, s.fn+" returns a successful result of shape `"+shape+"`: with an undecided first operand only the rebuilt "+kindOf+" (which keeps that operand, and with it its possible error) is sound")
+			if shape == "NodeValue" {
+				// a literal result is only admissible under a deciding constant test of the first operand
+				under := false
+				for _, g := range guardsAt(b) {
+					fg := flattenGuard(g)
+					if c, ok := fg.Cond.(*ssa.Call); ok && fg.Pol && c.Call.StaticCallee() != nil && (c.Call.StaticCallee().Name() == "isTrue" || c.Call.StaticCallee().Name() == "isFalse") && len(c.Call.Args) == 1 && c.Call.Args[0] == ssa.Value(firstNode) {
+						under = true
+					}
+				}
+				r.Check(under, rule, q+":literal-only-when-decided", p.pos(ret.Pos()), "a literal result is returned only when the first operand is a deciding constant", s.fn+" returns a literal although the first operand has not been shown to be a deciding constant (its error or non-boolean value would be lost)")
+			}
+		}
 		// (c) later operands: ignore propagates, other errors are embedded (never returned)
 		for _, f := range s.later {
 			var undecided *ssa.Call
@@ -810,6 +885,53 @@ func c6Helper(p *Prog, r *Report) {
 		good = errNil && notVar && notIgn
 	}
 	r.Check(good, rule, q+":literal", p.pos(evalCall.Pos()), "a literal is produced only from a successful evaluation that is neither unknown nor ignore", "tryPartial builds a literal from an evaluation result without having excluded error / unknown / ignore")
+	// every child is partially evaluated: the loop over the operands is a full range, each iteration calls partial on the
+	// current operand, and the loop is left only by exhaustion or by returning a non-nil error
+	partialFn := p.fn(pEval, "partial")
+	var pc *ssa.Call
+	for _, c := range callsIn(fn) {
+		if c.Common().StaticCallee() == partialFn {
+			pc, _ = c.(*ssa.Call)
+		}
+	}
+	loopOK := false
+	if pc != nil {
+		if loop := innermostLoop(loopsOf(fn), pc.Block()); loop != nil {
+			loopOK = true
+			full := false
+			if ld, ok := pc.Call.Args[1].(*ssa.UnOp); ok && ld.Op == token.MUL {
+				if ia, ok := ld.X.(*ssa.IndexAddr); ok && isFullRangeLoopIdx(loop, ia.Index, ia.X) && ia.X == ssa.Value(fn.Params[1]) {
+					full = true
+				}
+			}
+			if !full {
+				loopOK = false
+			}
+			for _, s := range loop.Header.Succs {
+				if loop.Body[s] && reachableAvoiding(s, loop.Header, map[*ssa.BasicBlock]bool{pc.Block(): true}) {
+					loopOK = false
+				}
+			}
+			for _, e := range loop.exitEdges() {
+				if e[0] == loop.Header {
+					continue
+				}
+				okExit := false
+				if e[1] != nil {
+					if ret, isRet := lastInstr(e[1]).(*ssa.Return); isRet {
+						last := retLast(ret)
+						if isErrorType(last.Type()) && !isNilConst(last) {
+							okExit = true
+						}
+					}
+				}
+				if !okExit {
+					loopOK = false
+				}
+			}
+		}
+	}
+	r.Check(loopOK, rule, q+":all-operands", p.pos(fn.Pos()), "every operand is partially evaluated (no early exit except on error)", "tryPartial can leave its operand loop without partially evaluating every operand (an `ignore` or an error in a later operand would go unnoticed once an earlier operand is unknown)")
 	// children's errors: variable => keep going; anything else returned
 	m := p.modref()
 	if s := m.sums[fn]; s != nil {
